@@ -1,7 +1,7 @@
 (* Props/C14.v — Graceful shutdown: in-flight requests finish, nothing new starts, waiter woken.
    Only statements.  Models: Async/WaitGroup.v (WaitGroupFuture / TaskToken of src/async_io/util.rs, with a
    token drop forced into each window of poll) and Async/Conn.v (Token::run with the stop listener). *)
-From FV Require Import Base.Bytes Parser.ReqModel Parser.StreamModel Async.Conn Async.ConnWrites Async.ConnTotal Async.ConnReads Async.LoopTargets2 Async.LoopProofs2 Async.ConnLoop Async.WaitGroup Async.SyncTargets Async.SyncProofs.
+From FV Require Import Base.Bytes Parser.ReqModel Parser.StreamModel Async.Conn Async.ConnWrites Async.ConnTotal Async.ConnReads Async.LoopTargets2 Async.LoopProofs2 Async.ConnLoop Async.WaitGroup Async.SyncTargets Async.SyncProofs Async.LogTargets Async.ShutdownTargets Async.ShutdownProofs.
 
 (* the representation invariant holds after every history, for every number of tokens and every
    placement of token drops into the windows of WaitGroupFuture::poll *)
@@ -81,4 +81,52 @@ Theorem C14_blocked_request_keeps_waiting :
   run_handler maxc f script r w1 = Halt ODeadlock w1' ->
   exists w2' : world, run_handler maxc f script r w2 = Halt ODeadlock w2' /\ same_mod_stop w1' w2'.
 Proof. exact handler_block. Qed.
+
+(* THE WHOLE CONNECTION: run it twice, once with no shutdown ever (w1), once with a shutdown requested at ANY
+   moment (w2: any stop_at, possibly already stopped; same client, transport scripts and log).  If the
+   undisturbed run returns or ends up waiting for its client, then either the shutdown made no difference (same
+   outcome, same handler invocations, same transport state), or the second run RETURNED and did so at a request
+   boundary: its handler invocations are an initial segment of the undisturbed run's - each with the same
+   request, handler result and transport log before, after and at the end of its close() -, every one of them
+   was closed (answered by its complete epilogue: C07_connection_log), its transport log is a prefix of the
+   undisturbed run's and it consumed no more input: no request is started after the shutdown, none in flight is
+   cut short or answered differently, nothing is written that would not have been written anyway *)
+Theorem C14_shutdown_cut :
+  forall (norm : bytes -> bytes) (maxc : N) (fuel : nat) (p : parser) (scripts : list (list N)) 
+    (n : nat) (w1 w2 : world) (acc : list served),
+  same_io w1 w2 ->
+  stop_at w1 = 0 ->
+  stopped w1 = false ->
+  let
+  '(o1, w1', l1) := run_loop_log norm maxc fuel p scripts n w1 acc in
+   let
+   '(o2, w2', l2) := run_loop_log norm maxc fuel p scripts n w2 acc in
+    o1 = ORet \/ o1 = ODeadlock ->
+    o2 = o1 /\ l2 = l1 /\ same_io w1' w2' \/
+    o2 = ORet /\
+    stopped w2' = true /\
+    (exists t : list served, l1 = l2 ++ t) /\
+    Forall closed_entry (skipn (length acc) l2) /\
+    is_prefix (wlog w2') (wlog w1') /\ consumed w2' <= consumed w1'.
+Proof. exact shutdown_cut. Qed.
+
+(* non-vacuity: two keep-alive requests and an idle client; with the stop requested before scheduling step 2
+   the second run returns after the FIRST request (1 of 2 invocations, 48 of 96 log bytes), the undisturbed run
+   serves both and then waits *)
+Theorem C14_shutdown_cut_example :
+  let
+  '(o1, w1', l1) := exs_run 0 in
+   let
+   '(o2, w2', l2) := exs_run 2 in
+    same_io (exs_w 0) (exs_w 2) /\
+    o1 = ODeadlock /\
+    o2 = ORet /\
+    stopped w2' = true /\
+    length l1 = 2%nat /\
+    length l2 = 1%nat /\
+    l1 = l2 ++ skipn 1 l1 /\
+    map is_closed l1 = [true; true] /\
+    wlog w1' = wlog w2' ++ skipn 48 (wlog w1') /\
+    length (wlog w2') = 48%nat /\ length (wlog w1') = 96%nat /\ consumed w2' = 48 /\ consumed w1' = 95.
+Proof. exact shutdown_cut_ex. Qed.
 
